@@ -127,11 +127,7 @@ func compareRead(s *fontSpec, e *expanded, g *cff.Font, fromLibrary bool) (strin
 	if fi.IsFixedPitch != s.IsFixedPitch {
 		c.fail("IsFixedPitch: want %v, got %v", s.IsFixedPitch, fi.IsFixedPitch)
 	}
-	// The reader reduces the angle to [-180,180) with floating point
-	// arithmetic at magnitude 360, which adds up to ~1e-13 of absolute noise.
-	if !readReal(s.ItalicAngle, fi.ItalicAngle) && !readReal(s.ItalicAngle+2e-13, fi.ItalicAngle) && !readReal(s.ItalicAngle-2e-13, fi.ItalicAngle) {
-		c.fail("ItalicAngle: want %v, got %v", s.ItalicAngle, fi.ItalicAngle)
-	}
+	num("ItalicAngle", s.ItalicAngle, fi.ItalicAngle)
 	num("UnderlinePosition", s.UnderlinePosition, float64(fi.UnderlinePosition))
 	num("UnderlineThickness", s.UnderlineThickness, float64(fi.UnderlineThickness))
 	topDef := defaultMatrix
